@@ -241,14 +241,16 @@ crab::domains::bitwise_operation_t bop(const std::string &s) {
 
 // one operation of the history applied to a pool of values of type DomT (the shipped domain, or
 // for the copy-on-write wrapper runs also the plain wrapped domain driven in lock step)
-template <class DomT> void apply_op(std::vector<DomT> &pool, const Sx &op, size_t oi) {
+// ALT selects the other copy discipline (twin pool, C16): copies made by the other of the two mechanisms, results of
+// binary operations moved instead of copied into their slot
+template <class DomT, bool ALT = false> void apply_op(std::vector<DomT> &pool, const Sx &op, size_t oi) {
   const std::string &k = op[0].a;
   unsigned d = std::stoul(op[1].a);
     if (k == "top") pool[d].set_to_top();
     else if (k == "bot") pool[d].set_to_bottom();
     else if (k == "copy") {
       DomT c(pool[std::stoul(op[2].a)]);
-      if (oi % 2) pool[d] = c;                                  // copy ctor + copy assignment
+      if ((oi % 2 == 1) != ALT) pool[d] = c;                    // copy ctor + copy assignment
       else { DomT m(std::move(c)); pool[d] = std::move(m); }     // + move ctor + move assignment
     }
     else if (k == "assign") pool[d].assign(var(vidx(op[2])), parse_lin(op[3]));
@@ -273,10 +275,10 @@ template <class DomT> void apply_op(std::vector<DomT> &pool, const Sx &op, size_
       for (size_t i = 0; i < op[3].size(); i++) t.push_back(var(vidx(op[3][i])));
       pool[d].rename(f, t);
     } else if (k == "expand") pool[d].expand(var(vidx(op[2])), var(vidx(op[3])));
-    else if (k == "join") { DomT r = pool[std::stoul(op[2].a)] | pool[std::stoul(op[3].a)]; pool[d] = r; }
-    else if (k == "meet") { DomT r = pool[std::stoul(op[2].a)] & pool[std::stoul(op[3].a)]; pool[d] = r; }
-    else if (k == "widen") { DomT r = pool[std::stoul(op[2].a)] || pool[std::stoul(op[3].a)]; pool[d] = r; }
-    else if (k == "narrow") { DomT r = pool[std::stoul(op[2].a)] && pool[std::stoul(op[3].a)]; pool[d] = r; }
+    else if (k == "join") { DomT r = pool[std::stoul(op[2].a)] | pool[std::stoul(op[3].a)]; if (ALT) pool[d] = std::move(r); else pool[d] = r; }
+    else if (k == "meet") { DomT r = pool[std::stoul(op[2].a)] & pool[std::stoul(op[3].a)]; if (ALT) pool[d] = std::move(r); else pool[d] = r; }
+    else if (k == "widen") { DomT r = pool[std::stoul(op[2].a)] || pool[std::stoul(op[3].a)]; if (ALT) pool[d] = std::move(r); else pool[d] = r; }
+    else if (k == "narrow") { DomT r = pool[std::stoul(op[2].a)] && pool[std::stoul(op[3].a)]; if (ALT) pool[d] = std::move(r); else pool[d] = r; }
     else if (k == "joineq") pool[d] |= pool[std::stoul(op[2].a)];
     else if (k == "meeteq") pool[d] &= pool[std::stoul(op[2].a)];
     else if (k == "normalize") pool[d].normalize();
@@ -297,6 +299,9 @@ std::string eval(const Sx &q) {
   std::vector<WRAPPED> plain;
   for (unsigned i = 0; i < NP; i++) { WRAPPED w; plain.push_back(w.make_top()); }
 #endif
+  // twin pool (C16): the same history with the other copy discipline must give identical dumps
+  std::vector<Dom> twin;
+  for (unsigned i = 0; i < NP; i++) twin.push_back(mk_top());
   const Sx &ops = q[2];
   std::ostringstream out;
   for (size_t oi = 1; oi < ops.size(); oi++) {
@@ -316,6 +321,8 @@ std::string eval(const Sx &q) {
 #else
     bool wr_same = true;
 #endif
+    apply_op<Dom, true>(twin, op, oi);
+    if (dump(pool[d], true) != dump(twin[d], true)) wr_same = false;
     bool same = true;
     for (unsigned i = 0; i < NP; i++)
       if (i != d && before[i] != dump(pool[i], true)) same = false;
@@ -475,6 +482,25 @@ std::string gen(Rng &r, const Args &a) {
     else if (k < 98) o << " (select " << d << " v" << r.below(NV) << " " << gen_cst(r, big_ok) << " " << gen_lin(r, big_ok, 2) << " " << gen_lin(r, big_ok, 2) << ")";
     else if (k < 99) o << " (top " << d << ")";
     else o << " (bot " << d << ")";
+  }
+  // scripted tail (scenario library): a widening that drops a bound which the kept relations imply again
+  // (y <= x, x <= c, y <= c - k1  widened with  y <= c - k2): the result is stored by copy in one pool and by move in
+  // the twin pool, then queried / projected; a representation that is not carried over by one of the mechanisms
+  // (pending closure of a DBM) shows as different dumps
+  if (r.below(8) == 0) {
+    unsigned x = r.below(NV), y = (x + 1 + r.below(NV - 1)) % NV;
+    int64_t c = r.range(-5, 20), k1 = r.range(3, 9), k2 = r.range(0, 2);
+    auto val = [&](unsigned d, int64_t k) {
+      o << " (top " << d << ") (assume " << d << " (le (lin 0 (1 v" << y << ") (-1 v" << x << "))) (le (lin " << -c << " (1 v" << x << "))) (le (lin " << -(c - k) << " (1 v" << y << "))))";
+    };
+    val(0, k1); val(1, k2);
+    o << " (" << (r.coin() ? "widen" : "join") << " 2 0 1)";
+    switch (r.below(4)) {
+    case 0: o << " (forget 2 v" << x << ")"; break;
+    case 1: o << " (query 2)"; break;
+    case 2: o << " (copy 0 2) (forget 0 v" << x << ")"; break;
+    default: o << " (assume 2 (le (lin " << -(c + 3) << " (1 v" << x << "))))"; break;
+    }
   }
   o << "))";
   std::string s = o.str();
